@@ -1045,3 +1045,73 @@ def check_length_getters(ctx, rep):
         else:
             rep.ok("R-KIND", key, b.where(), "returns len() of the wrapped value or the sentinel")
     return n
+
+
+def check_null_reported_on_every_path(ctx, rep):
+    """N4: 'a null pointer for any pointer argument is reported as an error' on *every* path, not only on those that happen to use
+    the pointer: a return that follows no error record lies only on paths on which each pointer argument has been put to a null
+    test (is_null / as_ref / as_mut - whose null arm N2 obliges to record the error). A function that tests an out-pointer only
+    where it writes it answers `false, no error` for a null out-pointer whenever it returns before the write. Forward may-analysis
+    over states (set of tested arguments, error recorded)"""
+    prog = ctx.prog
+    from rules import entries
+
+    n = 0
+    E = set(entries.extern_c(prog))
+    for f in sorted(E):
+        body = prog.bodies[f]
+        name = body.rec["name"]
+        if name in EXEMPT_NULL:
+            continue
+        params = ptr_params(body)
+        if not params:
+            continue
+        IN, alias, owner, isnull, asref = nonnull_facts(body, params)
+        # which blocks perform a null test of which parameter
+        tests = {}
+        for bi, t in body.calls():
+            nm = strip_generics(mir.callee_name(t) or "")
+            if nm.split("::")[-1] in ("is_null", "as_ref", "as_mut", "as_ref_unchecked") and t["args"]:
+                pl = op_place(t["args"][0])
+                if pl is not None and not pl["p"] and pl["l"] in owner:
+                    tests.setdefault(bi, set()).add(owner[pl["l"]])
+            elif mir.callee_name(t) in E:
+                # handed on to another exported function, which is under the same obligation for that argument
+                for a in t["args"]:
+                    pl = op_place(a)
+                    if pl is not None and not pl["p"] and pl["l"] in owner:
+                        tests.setdefault(bi, set()).add(owner[pl["l"]])
+        errb = set(err_blocks(body))
+        allp = frozenset(p for p, _ in params)
+        states = {0: {(frozenset(), False)}}
+        work = [0]
+        while work:
+            b = work.pop()
+            out = set()
+            for tested, err in states.get(b, ()):
+                out.add((frozenset(tested | tests.get(b, set())), err or b in errb))
+            for s in body.succ(b):
+                if body.blocks[s].get("cleanup"):
+                    continue
+                cur = states.setdefault(s, set())
+                new = out - cur
+                if new:
+                    cur |= new
+                    work.append(s)
+        missing = {}
+        for b in range(body.n):
+            if body.term(b)["k"] != "return":
+                continue
+            for tested, err in states.get(b, ()):
+                tested = tested | tests.get(b, set())
+                if not err:
+                    for p in allp - tested:
+                        missing.setdefault(p, b)
+        for p, ty in params:
+            n += 1
+            key = "%s:null-reported-on-every-path:arg%d" % (name, p)
+            if p in missing:
+                rep.bad("R-ERR", "R-ERR:" + key, body.where(missing[p]), "N4: %s can return without an error record on a path that never tests pointer argument %d (%s) for null: a null there goes unreported on that path" % (name, p, ty))
+            else:
+                rep.ok("R-ERR", key, body.where(), "N4: every return without an error record follows a null test of the argument")
+    return n
